@@ -25,16 +25,16 @@ def r1(ctx, rep):
     rep.rule("C05.R1", "the result has one column per frame column (arity by construction)", floor=3)
     syn = ctx.syn
     ps = syn.fn("Lowerer::push_select", crate="prqlc")
-    un = [n for n in walk(ps["body"]) if n.get("k") == "local" and n["pat"].get("k") == "p_tuple" and len(n["pat"]["e"]) == 2
-          and n.get("init", {}).get("k") == "mcall" and n["init"]["m"] == "unzip"]
-    rep.check(len(un) == 1 and show(un[0]["init"]) == "columns.into_iter().unzip()", "unzip", "the declared columns and the selected ids must come from one list", file=ps["file"], line=ps["l"], fn=ps["path"])
+    import C16
+    shp = C16.push_select_shape(syn)
+    rep.check(shp["ok_unzip"], "unzip", "the declared columns and the selected ids must come from one list", file=ps["file"], line=ps["l"], fn=ps["path"])
     # every frame column contributes exactly one push in the Single arm
     single = None
     for m in matches_of(ps["body"]):
         for arm in m["arms"]:
             if "LineageColumn::Single" in show(arm["pat"]):
                 single = arm
-    pushes = [n for n in walk(single["body"]) if n.get("k") == "mcall" and n["m"] == "push" and show(n["r"]) == "columns"] if single else []
+    pushes = [n for n in walk(single["body"]) if n.get("k") == "mcall" and n["m"] == "push" and show(n["r"]) == shp["list"]] if single else []
     rep.check(len(pushes) == 1, "one-per-column", f"a named frame column must contribute exactly one result column; found {len(pushes)} pushes", file=ps["file"], line=single["l"] if single else ps["l"], fn=ps["path"])
     ln = syn.fn("AnchorContext::load_names", crate="prqlc")
     ok = any(m["n"] == "assert_eq" and [show(a) for a in m.get("a", [])][:2] == ["output_cids.len()", "output_cols.len()"] for m in macros(ln["body"]))
@@ -127,30 +127,53 @@ def r5(ctx, rep):
     syn = ctx.syn
     f = syn.fn("gen_expr::translate_select_item", crate="prqlc")
     import alpha
+    import guards
     A = alpha.Inliner(f, max_inline=1)
-    ok = False
-    cond_ok = False
-    for n in f["body"]["s"]:
-        # `if <inferred> != <expected>` with both sides inlined: expected = the registered name of the id, inferred = last part of a plain column reference
-        if n.get("k") == "if" and n["c"].get("k") in ("bin", "paren"):
-            c = n["c"]["e"] if n["c"].get("k") == "paren" else n["c"]
-            if c.get("k") != "bin" or c["op"] != "!=":
-                continue
-            def resolved(e):
-                if e.get("k") == "path" and "::" not in e["p"]:
-                    i = A._init_of(e, e["p"])
-                    return i if i is not None else e
-                return e
-            nodes = [resolved(c["lhs"]), resolved(c["rhs"])]
-            exp = [x for x in nodes if show(x) == "ctx.anchor.column_names.get(&cid)"]
-            inf = [x for x in nodes if any(y.get("k") in ("p_ts", "p_path", "path") and "CompoundIdentifier" in y.get("p", "") for y in walk(x))
-                   and any(y.get("k") == "mcall" and y["m"] == "last" for y in walk(x))]
-            cond_ok = len(exp) == 1 and len(inf) == 1
-            rets = [A.show(r.get("e")).replace(" ", "") for r in walk(n["t"]) if r.get("k") == "return"]
-            ins = [A.show(x).replace(" ", "") for x in walk(n["t"]) if x.get("k") == "mcall" and x["m"] == "insert" and show(x["r"]).endswith("column_names")]
-            ok = cond_ok and len(rets) == 1 and rets[0].startswith("Ok(SelectItem::ExprWithAlias{alias:translate_ident_part(") and bool(ins) and ins[0].startswith("ctx.anchor.column_names.insert(cid,")
+    par = guards.parents(f["body"])
+
+    def resolved(e):
+        if e.get("k") == "path" and "::" not in e["p"]:
+            i = A._init_of(e, e["p"])
+            return i if i is not None else e
+        return e
+
+    def is_name_test(c):
+        """(op) if `c` compares the registered name of the id with the name SQL infers"""
+        while c.get("k") == "paren":
+            c = c["e"]
+        if c.get("k") != "bin" or c["op"] not in ("!=", "=="):
+            return None
+        nodes = [resolved(c["lhs"]), resolved(c["rhs"])]
+        exp = [x for x in nodes if show(x) == "ctx.anchor.column_names.get(&cid)"]
+        inf = [x for x in nodes if any(y.get("k") in ("p_ts", "p_path", "path") and "CompoundIdentifier" in y.get("p", "") for y in walk(x))
+               and any(y.get("k") == "mcall" and y["m"] == "last" for y in walk(x))]
+        return c["op"] if len(exp) == 1 and len(inf) == 1 else None
+
+    def branch_of(node):
+        """'differs' / 'equal' / None: the side of the name test the node is on (then/else of `!=` or `==`; code after an `if .. { return }` is on the other side)"""
+        cur = node
+        while id(cur) in par:
+            p_ = par[id(cur)]
+            if p_.get("k") == "if":
+                op = is_name_test(p_["c"])
+                if op:
+                    in_then = p_.get("t") is cur or guards._contains(p_.get("t"), cur)
+                    return "differs" if (op == "!=") == in_then else "equal"
+            if p_.get("k") == "block":
+                idx = next((i for i, st in enumerate(p_["s"]) if st is cur or guards._contains(st, cur)), None)
+                for st in p_["s"][:idx or 0]:
+                    if st.get("k") == "if" and st.get("e") is None and is_name_test(st["c"]) and any(r.get("k") == "return" for r in walk(st["t"])):
+                        return "equal" if is_name_test(st["c"]) == "!=" else "differs"
+            cur = p_
+        return None
+    alias = [n for n in walk(f["body"]) if n.get("k") == "struct" and n["p"].endswith("SelectItem::ExprWithAlias")]
+    bare = [n for n in walk(f["body"]) if n.get("k") == "call" and show(n["f"]).endswith("SelectItem::UnnamedExpr")]
+    ins = [n for n in walk(f["body"]) if n.get("k") == "mcall" and n["m"] == "insert" and show(n["r"]).endswith("column_names")]
+    cond_ok = any(is_name_test(n["c"]) for n in walk(f["body"]) if n.get("k") == "if")
+    ok = len(alias) == 1 and branch_of(alias[0]) == "differs" and bool(ins) and all(branch_of(i) == "differs" for i in ins) \
+        and "translate_ident_part(" in A.show(dict(alias[0]["f"]).get("alias"))
     rep.check(ok, "alias-when-different", "when the name SQL would infer differs from the expected column name the item must be emitted `AS <expected>` and the name registered", file=f["file"], line=f["l"], fn=f["path"])
-    rep.check(A.show(tail_expr(f["body"])).startswith("Ok(SelectItem::UnnamedExpr("), "bare-when-equal", "otherwise the expression is emitted bare", file=f["file"], line=f["l"], fn=f["path"])
+    rep.check(len(bare) == 1 and branch_of(bare[0]) == "equal", "bare-when-equal", "otherwise (names equal) the expression is emitted bare", file=f["file"], line=f["l"], fn=f["path"])
     rep.check(cond_ok, "expected-name", "the test must compare the registered column name of the id (`ctx.anchor.column_names.get(&cid)`) with the name SQL infers "
               "(the last part of a plain column reference, nothing for expressions)", file=f["file"], line=f["l"], fn=f["path"])
 
